@@ -97,7 +97,10 @@ def run_tlc(module, cfg, workers=16, coverage=False, simulate=None, depth=None, 
         cfgp = os.path.join(tmp, "model.cfg")
         with open(cfgp, "w") as f:
             f.write(cfg)
-        cmd = ["java", "-XX:+UseParallelGC", "-Xmx8g", f"-DTLA-Library={LIBPATH}", *java_opts, "-cp", JAR,
+        # many small models run concurrently: the serial collector and a small heap avoid the thread
+        # oversubscription of 16 parallel-GC threads per JVM (measured: 10 s -> 6 s for 6 concurrent models)
+        gc = ["-XX:+UseSerialGC", "-Xmx4g"] if workers <= 4 else ["-XX:+UseParallelGC", "-Xmx12g"]
+        cmd = ["java", *gc, f"-DTLA-Library={LIBPATH}", *java_opts, "-cp", JAR,
                "tlc2.TLC", "-workers", str(workers), "-metadir", os.path.join(tmp, "meta"),
                "-noGenerateSpecTE", "-config", cfgp]
         if coverage:
@@ -155,7 +158,8 @@ def run_tlc(module, cfg, workers=16, coverage=False, simulate=None, depth=None, 
             if mm:
                 res.violation = mm.group(1)
             else:
-                raise TLCError("TLC failed:\n" + text[-4000:])
+                i = text.find("Error:")
+                raise TLCError("TLC failed:\n" + (text[i:i + 3000] if i >= 0 else text[-3000:]))
         return res
     finally:
         shutil.rmtree(tmp, ignore_errors=True)
